@@ -64,6 +64,7 @@ func (e *SeqEnv) Case(id string, f func() (out string, nontrivial bool, key, det
 					status = "PANIC"
 					detail = fmt.Sprint(r) + "\n" + string(debug.Stack())
 				}
+				mcrt.ResetFuel()
 			}
 		}()
 		mcrt.ResetFuel()
